@@ -134,6 +134,14 @@ def parseFrag (s : String) : Option FragRes :=
     | _, _ => Option.none
   | _ => Option.none
 
+def showFrag : FragRes → String
+  | .bot Option.none => "bot:none"
+  | .bot (some (n, t)) => s!"bot:{n}:{t}"
+  | .frag n b => s!"fr:{n}:{hexOf b}"
+  | .none => "none" | .err => "err" | .panic => "panic"
+
+def showFrags (l : List FragRes) : String := " ".intercalate (l.map showFrag)
+
 def showErrC : CErr → String
   | .read _ => "err" | .value _ => "err" | .unexpectedToken => "err" | .missingValue => "err"
   | .prematureEnd => "err" | .illegalState => "err" | .fuel => "FUEL"
@@ -211,7 +219,7 @@ def handle (line : String) : String :=
         -- ===== the property =====
         if eF ≠ .fin then s!"PROP-FAIL class=eager-read-failed the eager reader rejects the generated data set" else
         if lF ≠ .fin ∨ lT ≠ eT.map (normTok be) then
-          s!"PROP-FAIL class=lazy-differs-from-eager lazy={lT.length} tokens fin={repr lF}, eager={eT.length} tokens"
+          s!"PROP-FAIL class=lazy-differs-from-eager lazy={lT.length} tokens fin={if lF == .fin then "end" else "err"}, eager={eT.length} tokens"
         else
         match w with
         | .err => "PROP-FAIL class=open-failed opening the whole file fails"
@@ -298,8 +306,8 @@ def handle (line : String) : String :=
                   let implPortions := portions.map fun p => match p with | .ok es => es | _ => []
                   if mPortions.length ≠ implPortions.length ∨ !(List.zipWith sameElems mPortions implPortions).all id then
                     "MODEL-DIFF collector model portions ≠ implementation portions" else
-                  if modelFrags fuel true c0 ≠ fR then s!"MODEL-DIFF fragments (offset table first) model={repr (modelFrags fuel true c0)} impl={repr fR}" else
-                  if modelFrags fuel false c0 ≠ gR then s!"MODEL-DIFF fragments model={repr (modelFrags fuel false c0)} impl={repr gR}" else
+                  if modelFrags fuel true c0 ≠ fR then s!"MODEL-DIFF fragments (offset table first) model=[{showFrags (modelFrags fuel true c0)}] impl=[{showFrags fR}]" else
+                  if modelFrags fuel false c0 ≠ gR then s!"MODEL-DIFF fragments model=[{showFrags (modelFrags fuel false c0)}] impl=[{showFrags gR}]" else
                   match buildObjectS (some utag) Option.none (mE.length + 1) mE [], buildObjectS Option.none (some ttag) (mE.length + 1) mE [] with
                   | .ok mU, .ok mT =>
                     if !sameElems mU uEs then "MODEL-DIFF read_until model ≠ implementation" else
